@@ -176,7 +176,16 @@ def parse_ref(src: str, root_ast: AST) -> AST:
         return _wrap_parse('try: pass\n', src, '', ('body', 0, 'handlers', 0))
 
     if cls is ast.match_case:
-        m = ast.parse('match _:\n' + '\n'.join(' ' + l for l in src.split('\n')))  # multiline strings would be altered, caller beware
+        inside = set()  # 0-based lines which continue a multi-line string token: not indented, their leading whitespace is string content
+
+        try:
+            for tok in tokenize.generate_tokens(io.StringIO(src).readline):
+                if tok.end[0] > tok.start[0] and tok.type not in (tokenize.NEWLINE, tokenize.NL, tokenize.INDENT, tokenize.DEDENT, tokenize.ENDMARKER, tokenize.OP):
+                    inside.update(range(tok.start[0], tok.end[0]))
+        except (tokenize.TokenError, IndentationError, SyntaxError):
+            inside = set()
+
+        m = ast.parse('match _:\n' + '\n'.join(l if i in inside else ' ' + l for i, l in enumerate(src.split('\n'))))
         node = m.body[0].cases[0]
 
         if len(m.body[0].cases) != 1:
@@ -186,8 +195,12 @@ def parse_ref(src: str, root_ast: AST) -> AST:
             if hasattr(n, 'lineno'):
                 n.lineno -= 1
                 n.end_lineno -= 1
-                n.col_offset -= 1
-                n.end_col_offset -= 1
+
+                if n.lineno - 1 not in inside:
+                    n.col_offset -= 1
+
+                if n.end_lineno - 1 not in inside:
+                    n.end_col_offset -= 1
 
         return node
 
